@@ -214,7 +214,27 @@ pub fn run(tier: &str) -> i32 {
                    "bodies": bodies, "max_non_default_bodies": sp, "page_limit": limit.unwrap_or(1000)}),
         );
     }
-    rep.rule = "LEDGER/TREE histories as in C01 (equal difficulty and D={1,3}); in every state, for every book address and every c in [1, best-chain length + 2], get_utxos(min_confirmations=c) with all pages followed is compared with the ledger at B(c), B(c) recomputed from the definition of the stability count".into();
+    // the same on states in the middle of a sliced ingestion and after an upgrade at any
+    // boundary (the anchor is then partly in the stable set)
+    for (theta, n) in if quick { vec![(2u32, 3usize)] } else { vec![(2, 4), (3, 4)] } {
+        let mut alpha = ledger_alphabet(n, &[1], 2);
+        alpha.bodies = vec![BODY_CB, BODY_MULTI, BODY_SPEND_PARENT];
+        alpha.budgets = vec![0, 1, 2];
+        alpha.upgrades = vec![0];
+        alpha.max_upgrades = 1;
+        let m = ChainModel {
+            cfg: WorldCfg::regtest(theta),
+            alpha,
+            oracle: C04 { limit: Some(2) },
+        };
+        let e = explore(&m, &Limits::new(2, if quick { 300 } else { 6000 }));
+        rep.absorb(
+            &format!("LEDGER sliced+upgrade theta={} n={} budgets=[unlimited,1,2] upgrades<=1", theta, n),
+            e,
+            json!({"network": "regtest", "threshold": theta, "max_blocks": n, "ingestion_budgets": [0, 1, 2], "max_upgrades": 1, "page_limit": 2}),
+        );
+    }
+    rep.rule = "LEDGER/TREE histories as in C01 (equal difficulty and D={1,3}), plus a part with sliced ingestion and one upgrade at any boundary; in every state, for every book address and every c in [1, best-chain length + 2], get_utxos(min_confirmations=c) with all pages followed is compared with the ledger at B(c), B(c) recomputed from the definition of the stability count".into();
     rep.bounds = json!({"tier": tier});
     rep.assume("c = 0 / no filter belongs to C01 and C02");
     rep.floor("filtered_answers_checked", 10_000);
